@@ -270,3 +270,42 @@ def flag_observation(x):
     if x[0] == "rmw" and x[2] in ("swap", "fetch_or", "fetch_and") and x[3] is not None and x[3][0] == "const":
         return cell_key(x[1])
     return None
+
+
+def none_after_some_infeasible(path):
+    """A path that stores Some(..) into a cell and then, with no visible effect in between (no send, user call, thunk, spawn,
+    lock, local call), reads the same cell and takes the None branch cannot be executed by this handler alone; the only
+    writers that could interleave are other handlers' clears of *their own* cells (ATM-single-writer, cell hygiene).  Such
+    paths are the shadow of `if let Some(tb) = &*cell.load()` written right after `cell.store(Some(tb))`."""
+    last_some = {}      # cell key -> event index of the latest store Some with nothing visible since
+    for i, ev in enumerate(path.events):
+        if ev[0] == "eff":
+            e = ev[1]
+            if e.kind == "cell" and e.op == "store":
+                k = cell_key(e.cell)
+                if e.value is not None and e.value[0] == "agg" and e.value[2] == "Option::Some":
+                    last_some[k] = i
+                else:
+                    last_some.pop(k, None)
+            elif e.kind == "cell" and e.op in ("load", "load_full"):
+                pass
+            elif e.kind in ("send", "usercall", "thunk", "spawn", "lock", "localcall", "indirect", "iternext", "poll", "sleep") or \
+                    (e.kind == "cell" and e.op not in ("load", "load_full")):
+                if not e.tracing:
+                    last_some.clear()
+        elif ev[0] in ("yield", "enter", "leave"):
+            last_some.clear()
+        elif ev[0] == "br" and last_some:
+            a = norm_pred(ev[1], ev[2])
+            x = None
+            if a[0] == "opt" and a[2] == "none":
+                x = a[1]
+            elif a[0] == "discr" and a[2] == 0:
+                x = a[1]
+            if x is not None and x[0] == "cellload" and cell_key(x[1]) in last_some:
+                # the load itself must lie after the store
+                site = x[2]
+                li = [j for j, ev2 in enumerate(path.events[:i]) if ev2[0] == "eff" and ev2[1].kind == "cell" and ev2[1].op in ("load", "load_full") and ev2[1].site == site]
+                if li and li[-1] > last_some[cell_key(x[1])]:
+                    return True
+    return False
